@@ -3,7 +3,7 @@ Spec: Grating.tla (resolution tree over the 128 presence patterns, Bragg tanh la
 import random, math, warnings
 import numpy as np
 from scipy.constants import c as C0
-from ..core import deadline, import_repo
+from ..core import deadline, import_repo, fresh_repo
 
 LEVEL = "exploration"
 
@@ -67,7 +67,8 @@ def run(ctx):
     # ---- 2. Bragg reflectivity on the tanh lattice, every profile
     tri = lambda z: 1 - np.abs(z)
     quad = lambda z: 0.5 + z ** 2
-    profs = {"uniform": "uniform", "parabolic": "parabolic", "rcos": "rcos", "gaussian": "gaussian", "tri": tri, "quad": quad}
+    tilt = lambda z: 1 + 0.8 * z
+    profs = {"uniform": "uniform", "parabolic": "parabolic", "rcos": "rcos", "gaussian": "gaussian", "tri": tri, "quad": quad, "tilt": tilt}
     for it, (pname, apo) in enumerate(profs.items()):
         for pt in tab["lattice"]:
             fs = setgv(it)
@@ -129,6 +130,18 @@ def run(ctx):
         events.append({"kind": "shape", "same": bool(type(out) is optical_signal and out.signal.shape == x.signal.shape and H.shape == (n,))})
         meta.append(("shape", npol))
         ctx.case(("random", apo if isinstance(apo, str) else "callable", F_ != 0, npol, n, it % 3), {"kL": kLv, "vdneff": vdn, "F": F_, "detuning/fs": det / fs})
+    # history independence: same grating and record length under another sampling rate before
+    for it, (cfgA, cfgB) in enumerate([(dict(sps=16, R=10e9), dict(sps=8, R=25e9)), (dict(sps=32, R=12.5e9), dict(sps=16, R=10e9))]):
+        xs = np.random.RandomState(300 + it).randn(256) + 0j
+        kw = dict(neff=neff, v=v, landa_D=1550e-9, vdneff=1e-4, kL=2.0, print_params=False, retH=True)
+        gv(**cfgA); FBG(optical_signal(xs), **kw)
+        gv(**cfgB); _, Ha = FBG(optical_signal(xs), **kw)
+        with fresh_repo() as lib:
+            lib["typing"].gv(**cfgB)
+            _, Hf = lib["devices"].FBG(lib["typing"].optical_signal(xs), **kw)
+        events.append({"kind": "route", "ppt": rel(Ha + 2, Hf + 2)})
+        meta.append(("route", "history-independent"))
+        ctx.case(("history", it))
     try:
         FBG(electrical_signal(np.ones(8)), fc=gv.f0, vdneff=1e-4, kL=1.0, print_params=False)
         raised = "ok"
